@@ -3,6 +3,17 @@
 import json, os
 ROOT = os.path.dirname(os.path.dirname(os.path.abspath(__file__)))
 BASE = "cd /repo && /venv/bin/python -m pytest -ra -q -p no:cacheprovider --timeout=900 --continue-on-collection-errors"
+CONDITIONS = {
+ "C01": "layout, multi_residue, modifications, guarded_links", "C02": "catalogue (16 link families), dangling",
+ "C03": "box_rule, density_box, order, completeness, end_to_end", "C04": "consume, coordfile, retry_ignore, backmap_flagged, rewind_supplied, end_to_end",
+ "C05": "step, step_length, acceptance, overlap, start_on_grid, start_check", "C06": "rotation, placement, centred, templates_centred",
+ "C07": "geometry, direction, min_image, milestones, bounds, cycles, end_to_end", "C08": "flatten (known finding F20)",
+ "C09": "dihedral_match, bonded, bonded_misc, nonbonded", "C10": "missing_edges, warnings, connectivity_gate, fragments, after_removal",
+ "C11": "round_trip", "C12": "plain, files, linear, genseq, genseq_from_file, plain_strings (CrossHair)", "C13": "relabel, history, hash_seed",
+ "C14": "exclusions", "C15": "virtual_sites, dihedral_sign, grouping, verdict, precedence", "C16": "histories, force_law, min_image",
+ "C17": "rewind", "C18": "build_file_ranges, residue_spec, split, ligands, molecule_sections (known finding F22b), spec_strings (CrossHair)",
+ "C19": "complement, gen_params", "C20": "gen_params, gen_coords, gen_seq",
+}
 NOTE_COMMON = ("Trusted base: z3 5.1 (verdicts), CPython/numpy/networkx/vermouth as the semantics the real code runs on, the symx "
                "proxy layer (validated on every run by the engine self-check and by concrete replay of explored paths). "
                "Floats are modelled as mathematical reals. Nothing is claimed outside the bounds listed in the evidence file.")
@@ -142,7 +153,7 @@ def main():
                 "replay_cmd_template": "/verif/.venv/bin/python {path}",
                 "engine": c.get("engine", "symx"),
                 "level_claimed": {"category": "model_checking", "text": c["text"], "design_ref": c["design"]},
-                "level_note": c["note"],
+                "level_note": c["note"] + " Conditions of this check: " + CONDITIONS[pid] + " (DESIGN.md 9.3; bounds, stubs and what lies outside are listed per condition in the evidence file).",
                 "technique": c["technique"],
             })
         else:
